@@ -17,6 +17,7 @@ import VotelibModel.OpenList
 import VotelibModel.Simple
 import VotelibModel.Gen.Quota
 import VotelibModel.Gen.Threshold
+import VotelibModel.Gen.OpenList
 import VotelibProofs.Props.C09
 namespace VL.C16
 open VL
@@ -420,10 +421,16 @@ theorem quota_selector_overflow_select (quota : Rat → Nat → Rat) (eq : Bool)
 def IsJumper (eq : Bool) (thr : Rat) (votes : Votes) (c : Cand) : Prop :=
   ∃ v, (c, v) ∈ votes ∧ (thr < v ∨ (eq = true ∧ v = thr))
 
+/-- **The literal jump condition of `ThresholdOpenList.evaluate`** (regenerated from openlist.py on every run) is the
+    boundary rule: strictly over the threshold, or exactly on it when equality is accepted. -/
+theorem jump_condition_exact (thr : Rat) (eq : Bool) (v : Rat) :
+    Gen.OpenList.openlist_jumps thr eq v = true ↔ (thr < v ∨ (eq = true ∧ v = thr)) := by
+  simp [Gen.OpenList.openlist_jumps]
+
 theorem mem_jumpers (eq : Bool) (thr : Rat) (votes : Votes) (c : Cand) :
     c ∈ jumpers eq thr votes ↔ IsJumper eq thr votes c := by
   unfold jumpers IsJumper
-  simp only [List.mem_map, List.mem_filter, mem_sortDesc, passes_iff]
+  simp only [List.mem_map, List.mem_filter, mem_sortDesc, jump_condition_exact]
   constructor
   · rintro ⟨⟨c', v⟩, ⟨hm, hp⟩, rfl⟩; exact ⟨v, hm, hp⟩
   · rintro ⟨v, hm, hp⟩; exact ⟨(c, v), ⟨hm, hp⟩, rfl⟩
@@ -465,6 +472,22 @@ theorem jump_threshold_spec (cfg : OpenListCfg) (total : Rat) (n : Nat) :
   · simp [OpenListCfg.quotaFunction, hqq]
   · obtain ⟨q', h1, h2⟩ := hq _ hqq
     simp [h1, h2, hmax, hmin]
+
+/-- **quota_fraction_scales_quota.**  For every quota function (by name or callable) and every quota fraction, the
+    quota part of the jump threshold is `quota(V, n) · quota_fraction`: the wrapper built in `__init__` scales the
+    QUOTA, never the vote total or the seat count.  (With only a quota configured this is the threshold itself.) -/
+theorem quota_fraction_scales_quota (cfg : OpenListCfg) (q : Rat → Nat → Rat) (hq : cfg.quota = some q)
+    (total : Rat) (n : Nat) :
+    (∃ q', cfg.quotaFunction = some q' ∧ q' total n = q total n * cfg.quotaFraction) ∧
+    (cfg.jumpFraction = none → jumpThreshold cfg total n = some (q total n * cfg.quotaFraction)) := by
+  constructor
+  · unfold OpenListCfg.quotaFunction
+    rw [hq]
+    by_cases h1 : cfg.quotaFraction = 1
+    · exact ⟨q, by simp [h1], by rw [h1, mul_one]⟩
+    · exact ⟨fun v s => q v s * cfg.quotaFraction, by simp only [ne_eq, h1, not_false_eq_true, if_true], rfl⟩
+  · intro hj
+    rw [jump_threshold_spec, hj, hq]
 
 /-- no jump fraction and no quota: the first `n` of the list -/
 theorem openlist_no_threshold (cfg : OpenListCfg) (votes : Votes) (n : Nat) (clist : List Cand)
@@ -523,7 +546,7 @@ theorem jumpers_sorted (eq : Bool) (thr : Rat) (votes : Votes) (hwf : WF votes) 
     (jumpers eq thr votes).Pairwise (fun a b => getD votes b 0 ≤ getD votes a 0) := by
   unfold jumpers
   rw [List.pairwise_map]
-  have hd : Desc ((sortDesc votes).filter (fun p => passes eq thr p.2)) :=
+  have hd : Desc ((sortDesc votes).filter (fun p => Gen.OpenList.openlist_jumps thr eq p.2)) :=
     List.Pairwise.sublist List.filter_sublist (sortDesc_desc votes)
   refine (List.Pairwise.and_mem.mp hd).imp ?_
   rintro a b ⟨ha, hb, hab⟩
